@@ -522,7 +522,7 @@ def run(ctx, res):
     res.rule = ("one evaluation = one JobBuilder.build() of one builder of a generated tree of derived builders (plus the exhaustive type-pair / value-type matrices); "
                 "non-trivial = the builder has at least one edge or one static value; distinct = distinct (tasks as observed, edges) description")
     rng = ctx.sub_rng("trees")
-    cases = matrix_cases() + [gen_case(rng) for _ in range(ctx.n(450, 12000))]
+    cases = matrix_cases() + [gen_case(rng) for _ in range(ctx.n(1200, 30000))]
     terms, metas = [], []
     for case in cases:
         obs, fails = run_case(case)
@@ -531,6 +531,10 @@ def run(ctx, res):
         for d, r in zip(obs["descs"], obs["results"]):
             res.evaluations += 1
             res.count("outcome:" + r[0])
+            if r[0] == "job" and d["edges"]:
+                res.count("outcome:job-with-edges")
+                if any(isinstance(e[3], str) for e in d["edges"]):
+                    res.count("outcome:job-with-keyword-edges")
             res.count("edges:" + str(min(len(d["edges"]), 6)) + ("+" if len(d["edges"]) >= 6 else ""))
             tasks = {n: obs["tobs"][ix][1] for n, ix in d["nodes"].items()}
             if d["edges"] or any(t["kw"] or t["ps"] for t in tasks.values()):
